@@ -71,6 +71,18 @@ def exhaustive(tier):
             for b in twins:
                 yield {"spec": typed, "value": [a, b], "src": "conforming", "applied": None}
         yield {"spec": typed, "value": [1, 1, 1.0, 1], "src": "conforming", "applied": None}
+    # string constraints x every string over {a, b, q} up to length 4 (the offending character / the missing substring at
+    # every position)
+    import itertools
+    strs = ["".join(t) for n in range(5) for t in itertools.product("abq", repeat=n)]
+    for sp in ({"t": "str", "alphabet": "ab", "order": ["alphabet"]},
+               {"t": "str", "alphabet": "ba", "len": ["eq", 3], "order": ["len", "alphabet"]},
+               {"t": "str", "substr": "ab", "order": ["substr"]},
+               {"t": "str", "substr": "ab", "len": ["range", 1, 3], "order": ["substr", "len"]},
+               {"t": "str", "pattern": "^a+b?$"}, {"t": "str", "pattern": "ab"}, {"t": "str", "value": "aba"},
+               {"t": "str", "alphabet": "abq", "substr": "qa", "len": ["min", 3], "order": ["len", "substr", "alphabet"]}):
+        for x in strs:
+            yield {"spec": sp, "value": x, "src": "conforming", "applied": None}
     # enumerations (every alternative a constant) x the same scalars, bare and as list elements
     import decimal
     import fractions
